@@ -48,7 +48,10 @@ PEAK_COUNTERS = ("loop_rounds_max",)
 TIMEOUT_S = {"quick": 240, "thorough": 1500}
 REQUIRE = {"requests_compared": 1500, "loop_requests_compared": 40, "header_values_compared": 3000,
            "qarg_pairs_compared": 3000, "body_bytes_compared": 20000, "json_bodies_compared": 100,
-           "form_bodies_compared": 100, "paths_needing_quote": 500}
+           "form_bodies_compared": 100, "paths_needing_quote": 500,
+           "sequence_requests_compared_on_reused_parser": 1500, "loop_sequence_requests_compared_on_kept_connection": 100,
+           "header_names_dropped_between_consecutive_requests": 800, "body_dropped_between_consecutive_requests": 400,
+           "qargs_dropped_between_consecutive_requests": 400, "header_name_sets_compared": 5000}
 
 METHODS = ["GET", "HEAD", "PUT", "PATCH", "POST", "DELETE", "OPTIONS", "TRACE", "CONNECT"]
 
@@ -184,14 +187,23 @@ def gen_bytes(rng, maxlen):
     return bytes(out[:n])
 
 
-def gen_spec(rng, tier, mode):
+def gen_spec(rng, tier, mode, hint=None):
+    """hint (sequences): {"body": bool|None, "headers": bool|None, "qargs": bool|None} forces presence / absence"""
+    hint = hint or {}
     method = rng.choice(METHODS)
+    if hint.get("body") is True and method == "GET":
+        method = rng.choice(METHODS[1:])
     spec = {"mode": mode, "method": rng.choice([method, method, method.lower(), method.title()]),
             "path": gen_path(rng)}
     hostile_keys = rng.random() < 0.2
     qargs = []
     seen = set()
-    for _ in range(rng.choice([0, 0, 1, 2, 3, 5, 8])):
+    nq = rng.choice([0, 0, 1, 2, 3, 5, 8])
+    if hint.get("qargs") is True:
+        nq = max(nq, rng.randint(1, 4))
+    elif hint.get("qargs") is False:
+        nq = 0
+    for _ in range(nq):
         if hostile_keys:
             k = ustr(rng, 0, 8, extra="\r\n\t#?")
         else:
@@ -207,8 +219,19 @@ def gen_spec(rng, tier, mode):
     kind = "none"
     if method != "GET":
         kind = rng.choice(["none", "bytes", "bytes", "bytes", "str", "data", "data", "fargs", "fargs", "multipart"])
+        if hint.get("body") is True and kind == "none":
+            kind = rng.choice(["bytes", "str", "data", "fargs"])
+    if hint.get("body") is False:
+        kind = "none"
     spec["kind"] = kind
-    spec["headers"] = gen_headers(rng, allow_ctype=kind in ("none", "bytes", "str"), maxn=12)
+    if hint.get("headers") is False:
+        spec["headers"] = []
+    else:
+        spec["headers"] = gen_headers(rng, allow_ctype=kind in ("none", "bytes", "str"), maxn=12)
+        tries = 0
+        while hint.get("headers") is True and len(spec["headers"]) < 2 and tries < 20:
+            spec["headers"] = gen_headers(rng, allow_ctype=kind in ("none", "bytes", "str"), maxn=12)
+            tries += 1
     maxlen = 256 if tier == "quick" else 4096
     if kind == "bytes":
         spec["body"] = gen_bytes(rng, maxlen).decode("latin-1")
@@ -236,22 +259,48 @@ def gen_spec(rng, tier, mode):
         for _ in range(rng.randint(1, 4)):
             fa["f" + ustr(rng, 1, 5, hostile=False)] = ustr(rng, 0, 12, exclude="\r\n")
         spec["fargs"] = [[k, v] for k, v in fa.items()]
-    if kind in ("none", "bytes", "str") and rng.random() < 0.3:
+    if kind in ("none", "bytes", "str") and rng.random() < 0.3 and hint.get("headers") is not False:
         blen = len(spec.get("body", ""))
         name = rng.choice(["Content-Length", "content-length", "CONTENT-LENGTH"])
         spec["headers"].insert(rng.randint(0, len(spec["headers"])), [name, blen if rng.random() < 0.3 else str(blen)])
     return spec
 
 
+def gen_sequence(rng, tier, mode):
+    """2-4 specs for ONE kept connection / ONE reused Requestant; consecutive specs are made to differ in header names,
+    presence of a body and of query args (rich -> sparse, or sparse -> rich), so that anything left over from the
+    previous request shows up as a difference."""
+    n = rng.choice([2, 2, 3, 4])
+    rich = {"body": True, "headers": True, "qargs": True}
+    seq = []
+    flip = rng.random() < 0.3
+    for i in range(n):
+        if i % 2 == (1 if flip else 0):
+            hint = dict(rich) if i < 2 else {}
+        else:
+            hint = {k: (False if rng.random() < 0.6 else None) for k in rich}
+            if i < 2 and all(v is None for v in hint.values()):
+                hint[rng.choice(sorted(rich))] = False
+        seq.append(gen_spec(rng, tier, mode, hint))
+    return {"mode": mode, "seq": seq}
+
+
 def cases(tier, seed, shard, nshards):
     rng = random.Random(f"{seed}:C14:{shard}")
     ndirect = (6000 if tier == "quick" else 150000) // nshards
     nloop = (240 if tier == "quick" else 2400) // nshards
+    nseq = (1600 if tier == "quick" else 40000) // nshards
+    nseqloop = (96 if tier == "quick" else 960) // nshards
     every = max(1, ndirect // max(1, nloop))
     for i in range(ndirect):
         yield gen_spec(rng, tier, "direct")
         if i % every == 0:
             yield gen_spec(rng, tier, "loop")
+    every = max(1, nseq // max(1, nseqloop))
+    for i in range(nseq):
+        yield gen_sequence(rng, tier, "seq-direct")
+        if i % every == 0:
+            yield gen_sequence(rng, tier, "seq-loop")
 
 
 # ---- the round trip ----------------------------------------------------------------
@@ -295,8 +344,14 @@ def hostile_keys(spec):
     return any(quote_plus(str(k)) != str(k) for k, _ in spec["qargs"])
 
 
+_collect = {"sink": None}   # sequences first collect the failures of a request, then decide leak vs plain failure
+
+
 def fail(ctx, spec, aspect, msg):
     """One mechanism key per failing aspect; failures of specs whose query keys need quoting are keyed apart."""
+    if _collect["sink"] is not None:
+        _collect["sink"].append((spec, aspect, msg))
+        return
     if aspect in ("build-raises", "not-parsed", "query-args-differ") and hostile_keys(spec):
         ctx.violation("query-key-not-quoted:" + aspect, msg)
     else:
@@ -304,6 +359,8 @@ def fail(ctx, spec, aspect, msg):
 
 
 def run_case(spec, ctx):
+    if "seq" in spec:
+        return run_sequence(spec, ctx)
     ctx.count("specs_" + spec["mode"])
     ctx.count("method_" + spec["method"].upper())
     ctx.count("bodykind_" + spec["kind"])
@@ -353,22 +410,29 @@ def roundtrip_direct(spec, ctx):
             "ctype": rq.headers.get("content-type")}
 
 
-def roundtrip_loop(spec, ctx):
-    kw = spec_kwargs(spec)
-    cap = {}
+class LoopSession:
+    """one http.Server + one http.Client on ONE loopback connection; exchange() sends one spec and returns what the
+    WSGI application saw for it.  Single loop cases use it once, sequences keep it for 2-4 requests."""
 
-    def app(environ, start_response):
-        cap["env"] = dict(environ)
-        cap["body"] = environ["wsgi.input"].read()
+    def __init__(self):
+        self.caps = []
+        self.srv = self.client = None
+        hl.new_case()
+        self.srv, port = hl.open_hio_server(http.Server, _state["ports"], app=self.app)
+        self.client = hl.open_hio_client(port)
+        self.done = 0
+
+    def app(self, environ, start_response):
+        rs = next(iter(self.srv.reqs.values()), None)    # the connection's (only, reused) Requestant
+        self.caps.append({"env": dict(environ), "body": environ["wsgi.input"].read(),
+                          "rs_names": {k.lower() for k in rs.headers.keys()} if rs is not None else None})
         start_response("200 OK", [("Content-Type", "text/plain"), ("Content-Length", "2")])
         return [b"ok"]
 
-    srv = client = None
-    hl.new_case()
-    try:
-        srv, port = hl.open_hio_server(http.Server, _state["ports"], app=app)
-        client = hl.open_hio_client(port)
-        client.request(**kw)
+    def exchange(self, spec, ctx):
+        client, srv = self.client, self.srv
+        k = self.done
+        client.request(**spec_kwargs(spec))
         idle = 0
         for rnd in range(100 + GRACE):
             try:
@@ -386,32 +450,167 @@ def roundtrip_loop(spec, ctx):
                 typ, func, prim = hl.escape_mechanism(ex)
                 ctx.violation(f"loop-service-raises:server:{typ}:{func}", f"server.service() raised {ex!r} on a client-built request")
                 return None
-            if client.responses:
+            if len(client.responses) > k:
                 break
             if rnd > 6:
                 idle += 1
                 hl.idle_wait([client.connector.cs] if client.connector.cs else [], idle, grace=rnd >= 100)
         ctx.peak("loop_rounds_max", rnd + 1)
-        if "env" not in cap:
+        if len(self.caps) <= k:
             wire = bytes(client.requester.msg[:300])
-            fail(ctx, spec, "not-parsed", f"the server never handed the request to the application (rounds={rnd + 1}, "
-                 f"client response={list(client.responses)[:1]!r}); wire starts {wire!r}")
+            fail(ctx, spec, "not-parsed", f"the server never handed request #{k + 1} of the connection to the application "
+                 f"(rounds={rnd + 1}, client responses={len(client.responses)}); wire starts {wire!r}")
             return None
+        self.done += 1
         ctx.count("loop_roundtrips")
-        rs = next(iter(srv.reqs.values()), None)
-        return {"wire": bytes(client.requester.msg), "env": cap["env"], "body": cap["body"], "rs": rs, "left": b"",
-                "ctype": client.requester.headers.get("content-type"), "loop": True}
+        cap = self.caps[k]
+        return {"wire": bytes(client.requester.msg), "env": cap["env"], "body": cap["body"], "rs": None, "left": b"",
+                "rs_names": cap["rs_names"], "loop": True}
+
+    def close(self):
+        for obj in (self.client, self.srv):
+            if obj is not None:
+                try:
+                    obj.close()
+                except Exception:
+                    pass
+
+
+def roundtrip_loop(spec, ctx):
+    ses = None
+    try:
+        ses = LoopSession()
+        return ses.exchange(spec, ctx)
     finally:
-        if client is not None:
+        if ses is not None:
+            ses.close()
+
+
+class DirectSession:
+    """ONE Requester rebuilt per request the way Client.transmit does it, and ONE Requestant over one growing byte
+    buffer, re-armed between messages exactly like http.Server: serviceReps calls requestant.makeParser() once the
+    response has ended and the request was persistent (a non-persistent one ends the connection -> new Requestant)."""
+
+    def __init__(self):
+        self.rq = clienting.Requester(hostname="127.0.0.1", port=8080)
+        self.rs = serving.Requestant(msg=bytearray(), remoter=StubRemoter())
+
+    def exchange(self, spec, ctx):
+        kw = spec_kwargs(spec)
+        body = kw.get("body")
+        try:
+            msg = self.rq.rebuild(method=kw["method"].upper(), path=kw["path"], qargs=kw["qargs"],
+                                  fragment=kw.get("fragment", ""), headers=kw["headers"], body=body,
+                                  data=kw.get("data"), fargs=kw.get("fargs"))
+        except Exception as ex:
+            fail(ctx, spec, "build-raises", f"Requester.rebuild raised {ex!r} for qargs={spec['qargs']!r} path={spec['path']!r}")
+            return None
+        rs = self.rs
+        if rs.parser is None:          # what Server.serviceReps does before the next message of a kept connection
+            if rs.persisted:
+                rs.makeParser()
+                ctx.count("requestant_reuses")
+            else:
+                rs = self.rs = serving.Requestant(msg=bytearray(), remoter=StubRemoter())
+                ctx.count("requestant_replaced_after_non_persistent_request")
+        rs.msg.extend(msg)
+        steps = 0
+        try:
+            while rs.parser and steps < 64:
+                rs.parse()
+                steps += 1
+        except Exception as ex:
+            fail(ctx, spec, "not-parsed", f"server parser raised {ex!r} on client-built bytes {bytes(msg[:300])!r}")
+            return None
+        if not rs.ended:
+            fail(ctx, spec, "not-parsed", f"reused server parser still waits for bytes after the complete client message {bytes(msg[:300])!r}")
+            return None
+        if rs.errored:
+            fail(ctx, spec, "not-parsed", f"server rejected the client-built request: {rs.error!r}; start of message {bytes(msg[:200])!r}")
+            return None
+        left = bytes(rs.msg)
+        env = _state["server"].buildEnviron(rs)
+        return {"wire": bytes(msg), "env": env, "body": env["wsgi.input"].read(), "rs": rs, "left": left}
+
+    def close(self):
+        pass
+
+
+FIELD_OF = {"header-names-differ": "headers", "header-differs-environ": "headers", "header-differs-requestant": "headers",
+            "query-args-differ": "query", "body-differs": "body", "content-length-differs": "body", "json-differs": "body",
+            "form-differs": "body", "method-differs": "method", "path-differs-PATH_INFO": "path",
+            "path-differs-requestant": "path", "not-parsed": "not-parsed", "build-raises": "build"}
+
+
+def header_names(spec):
+    return {n.lower() for n, _ in spec["headers"]}
+
+
+def run_sequence(case, ctx):
+    mode = case["mode"]
+    seq = case["seq"]
+    ctx.count("sequences_" + mode)
+    ses = None
+    try:
+        ses = DirectSession() if mode == "seq-direct" else LoopSession()
+        prev = None
+        for k, spec in enumerate(seq):
+            spec = dict(spec, mode=mode)
+            ctx.count("method_" + spec["method"].upper())
+            ctx.count("bodykind_" + spec["kind"])
+            if prev is not None:
+                if header_names(prev) - header_names(spec):
+                    ctx.count("header_names_dropped_between_consecutive_requests")
+                if prev["kind"] != "none" and spec["kind"] == "none":
+                    ctx.count("body_dropped_between_consecutive_requests")
+                if prev["qargs"] and not spec["qargs"]:
+                    ctx.count("qargs_dropped_between_consecutive_requests")
+            _collect["sink"] = fails = []
             try:
-                client.close()
-            except Exception:
-                pass
-        if srv is not None:
-            try:
-                srv.close()
-            except Exception:
-                pass
+                got = ses.exchange(spec, ctx)
+                ok = compare(spec, got, ctx) if got is not None else False
+            finally:
+                _collect["sink"] = None
+            if ok and not fails:
+                ctx.count("sequence_requests_compared" if k == 0 else "sequence_requests_compared_on_reused_parser")
+                if mode == "seq-loop" and k > 0:
+                    ctx.count("loop_sequence_requests_compared_on_kept_connection")
+                prev = spec
+                continue
+            if got is None and not fails:
+                return          # service() raised: already reported by the session
+            leak = False
+            if k > 0:
+                # metamorphic control: the same spec through a fresh builder + fresh parser
+                fspec = dict(spec, mode="direct")
+                _collect["sink"] = fresh = []
+                try:
+                    g2 = roundtrip_direct(fspec, ctx)
+                    if g2 is not None:
+                        compare(fspec, g2, ctx)
+                finally:
+                    _collect["sink"] = None
+                leak = not fresh
+            if leak:
+                for field in sorted({FIELD_OF.get(a, a) for _, a, _ in fails}):
+                    msg = next(m for _, a, m in fails if FIELD_OF.get(a, a) == field)
+                    ctx.violation("state-leak-across-requests:" + field,
+                                  f"request #{k + 1} on a reused {'parser' if mode == 'seq-direct' else 'keep-alive connection'}: {msg}; "
+                                  f"the same spec alone (fresh parser) is recovered exactly. previous request: method={prev['method']!r} "
+                                  f"headers={[h[0] for h in prev['headers']]!r} qargs={prev['qargs']!r} kind={prev['kind']!r}; "
+                                  f"this request: method={spec['method']!r} headers={[h[0] for h in spec['headers']]!r} "
+                                  f"qargs={spec['qargs']!r} kind={spec['kind']!r}")
+            else:
+                for fs, a, m in fails:
+                    fail(ctx, fs, a, m)
+            return
+        ctx.nontrivial(case)
+        if len(seq) >= 3 and mode == "seq-loop":
+            ctx.sample({"sequence": [{"method": sp["method"], "headers": [h[0] for h in sp["headers"]], "nqargs": len(sp["qargs"]),
+                                      "kind": sp["kind"]} for sp in seq], "mode": mode, "all_recovered": True})
+    finally:
+        if ses is not None:
+            ses.close()
 
 
 def expected_body(spec):
@@ -472,6 +671,28 @@ def compare(spec, got, ctx):
             if rv != want:
                 fail(ctx, spec, "header-differs-requestant", f"header {name!r}: sent {want!r}, requestant has {rv!r}")
                 ok = False
+    # --- header NAMES: nothing but the spec's fields plus what the client adds by itself may be recovered
+    spec_names = {n.lower() for n, _ in spec["headers"]}
+    auto = {"host", "accept-encoding"}
+    if body:
+        auto.add("content-length")
+    if kind in ("data", "fargs", "multipart") and m != "GET":
+        auto.add("content-type")
+    rec = got.get("rs_names")
+    if rec is None and rs is not None and not loop:
+        rec = {k.lower() for k in rs.headers.keys()}
+    ctx.count("header_name_sets_compared")
+    if rec is not None:
+        extra, missing = rec - spec_names - auto, spec_names - rec
+        if extra or missing:
+            fail(ctx, spec, "header-names-differ", f"requestant.headers has unexpected fields {sorted(extra)!r}, lacks {sorted(missing)!r}; "
+                 f"spec fields {sorted(spec_names)!r}")
+            ok = False
+    want_env = {"HTTP_" + wsgi_key(n) for n in spec_names | auto}
+    have_env = {k for k in env if k.startswith("HTTP_")}
+    if have_env - want_env:
+        fail(ctx, spec, "header-names-differ", f"environ has unexpected keys {sorted(have_env - want_env)!r}; spec fields {sorted(spec_names)!r}")
+        ok = False
     # --- body bytes
     if got["left"]:
         fail(ctx, spec, "body-differs", f"{len(got['left'])} bytes of the client message were not consumed as this request's body")
